@@ -11,7 +11,7 @@ EXPLANATION = (
     "receiver (NodeState::check_delta_status, NodeState::apply_delta) are extracted from mir_built as terms over the "
     "atoms (sender gc/max, peer-digest gc/max, delta from/gc/max); the agreement obligations of the property are then "
     "evaluated for every ordering of these atoms on the grid 0..K (K>= #atoms+1, a complete abstraction for terms that "
-    "only compare and copy) and every truncation point of the delta. Nothing of chitchat is executed.")
+    "only compare and copy) and every truncation point of the delta. (R14.4 = C01/R01.1) the empty-tail SetMaxVersion guard is evaluated per member. Nothing of chitchat is executed.")
 TRUSTED = ["small-model argument for comparison-only integer terms (orderings of n atoms are all realised in 0..n)",
            "BTreeMap/Option/iterator library semantics as summarised"]
 ASSUMPTIONS = ["space permitting: MTU truncation is C07's subject; here every truncation point (header only, any prefix of "
@@ -41,6 +41,10 @@ def run(ctx):
     r14_1b(ctx, rep, snd, roles)
     r14_2(ctx, rep, adm, app, K)
     r14_3(ctx, rep, snd, adm, app, K)
+    # the "ahead only by max version" case is delivered by the empty-tail SetMaxVersion: its guard is per member (seed R2-C14-2)
+    from . import c01
+    c01.r01_1(ctx, rep, roles, snd)
+    ctx.report.rules[-1].id = "R14.4(R01.1)"
 
 
 # ------------------------------------------------------------------------- R14.1
